@@ -103,11 +103,34 @@ let do_dens id (f : string array) =
     end
 
 (* ---- SIMP ---- *)
+(* statistic only (no verdict depends on it): replays the model's loops on one vertex list with the
+   extracted scan_max / thr_ok / unsnoc and reports whether a span holding at least one vertex was
+   measured against a chord of zero length - (as the first chord of the line: a closed line,
+   as any later chord: a retained vertex that the line visits again) *)
+let zero_chord_use (t : q) (vs : qv list) : bool * bool =
+  let first = ref false and later = ref false and scans = ref 0 in
+  let q0 = { qnum = Z0; qden = XH } in
+  let rec inner a mids b after =
+    if mids <> [] && xy_eqb a b then (if !scans = 0 then first := true else later := true);
+    incr scans;
+    let (best, bi) = scan_max a b [] mids q0 None in
+    if thr_ok t best || !scans > 100000 then (b, after)
+    else match bi with
+      | None -> (b, after)
+      | Some ((pre, p), suf) -> inner a pre p (suf @ (b :: after)) in
+  let rec outer a tail = match unsnoc tail with
+    | None -> ()
+    | Some (mids, e) -> let (b, after) = inner a mids e [] in outer b after in
+  (match vs with a :: (_ :: _ :: _ as tail) -> outer a tail | _ -> ());
+  (!first, !later)
+
 let do_simp id (f : string array) =
   let gd = f.(3) and th = f.(4) and outd = f.(5) in
   let g = parse_dump gd and out = parse_dump outd in
   note_case ("SIMP " ^ th ^ " " ^ gd) (nontrivial_geom g);
-  count ("simp_" ^ (List.hd (String.split_on_char '/' f.(2))));
+  let cls = List.hd (String.split_on_char '/' f.(2)) in
+  count ("simp_" ^ cls);
+  let revisit = String.length cls >= 7 && String.sub cls 0 7 = "revisit" in
   let d = trunc ("t=" ^ th ^ " in=" ^ gd ^ " out=" ^ outd) in
   (match simp_judge g (n_of_hex th) out with
    | None -> fail id "CORR" "simp_not_finite" d
@@ -115,7 +138,15 @@ let do_simp id (f : string array) =
      if not v.mv_spec then fail id "SPEC" "simplify_contract" d;
      if not v.mv_ct then fail id "SPEC" "simplify_type_kept" d;
      if v.mv_ambiguous then count "simp_ambiguous"
-     else if not v.mv_model then fail id "CORR" "simplify_model" d);
+     else begin
+       if revisit then count "simp_revisit_compared_with_model";
+       if not v.mv_model then fail id "CORR" "simplify_model" d end);
+  (match geom_to_Q g, f64_to_Q (n_of_hex th) with
+   | Some gq, Some t ->
+     let uses = List.map (fun l -> zero_chord_use t (line_vs l)) (geom_lines gq) in
+     if List.exists fst uses then count "simp_zero_length_first_chord";
+     if List.exists snd uses then count "simp_zero_length_later_chord"
+   | _, _ -> ());
   (* the gate: an error, or a geometry the implementation's own Validate accepts *)
   let res = f.(6) and valid = f.(7) = "1" in
   if res = "OK" then begin
